@@ -46,15 +46,16 @@ RULE = ("cases drawn by seeded sampling over group {tableau, errw, order, accura
         "non-trivial = the deciding comparison of the group was reached (call history replayed to the end by the lockstep model / coefficients "
         "read off / at least s of the s+1 error weights read / both runs of a metamorphic pair completed) on a solution that is not identically "
         "zero, or the case ended in a violation")
+RULE += ("; group alias (vf/c07_extra.py): right-hand sides that return a tensor they do not own (the state, a view of it, a parameter, a closure tensor, a module attribute): exact step map, y(ts[0]) = y0, repeatability, caller's tensors unchanged")
 MIN_NONTRIVIAL = {"quick": 2000, "thorough": 15000}
 REQUIRED_COUNTERS = {
-    "quick": {"tableaus_identified": 200, "error_weight_sets_identified": 80, "histories_replayed": 5000, "replayed_euler": 600,
+    "quick": {"extra_alias_compared": 100, "tableaus_identified": 200, "error_weight_sets_identified": 80, "histories_replayed": 5000, "replayed_euler": 600,
               "replayed_rk4": 600, "replayed_rk38": 600, "replayed_rk23": 1400, "replayed_rk45": 2000, "steps_rejected": 1500,
               "steps_zero_length": 2000, "threshold_probes": 900, "rejections_probed": 400, "controller_probes": 900,
               "order_conditions_evaluated": 2200, "order_tests": 350, "accuracy_compared": 650, "accuracy_resolved_steps": 300,
               "metamorphic_compared": 900, "tuple_state_cases": 400, "degenerate_grids": 40, "y0_bitwise_checked": 5000,
               "default_method_calls": 20},
-    "thorough": {"tableaus_identified": 1400, "error_weight_sets_identified": 700, "histories_replayed": 40000, "replayed_euler": 4500,
+    "thorough": {"extra_alias_compared": 1000, "tableaus_identified": 1400, "error_weight_sets_identified": 700, "histories_replayed": 40000, "replayed_euler": 4500,
                  "replayed_rk4": 4500, "replayed_rk38": 4500, "replayed_rk23": 11000, "replayed_rk45": 16000, "steps_rejected": 12000,
                  "steps_zero_length": 16000, "threshold_probes": 8000, "rejections_probed": 4000, "controller_probes": 8000,
                  "order_conditions_evaluated": 17000, "order_tests": 2400, "accuracy_compared": 5000, "accuracy_resolved_steps": 2500,
@@ -914,6 +915,8 @@ def cases(seed, tier):
             for direction in ("inc", "dec"):
                 add("degenerate", n, method=m, var=var, dir=direction)
                 n += 1
+    from vf import c07_extra
+    out.extend(c07_extra.cases(seed, tier))
     return out
 
 
@@ -1625,6 +1628,9 @@ def run_degenerate(desc, obs):
 
 
 def run_case(desc):
+    if desc.get("group") == "alias":
+        from vf import c07_extra
+        return c07_extra.run_case(desc)
     obs = Obs(desc)
     g = desc["group"]
     obs.count("group_%s" % g)
